@@ -67,6 +67,14 @@ type logset struct {
 	records   []string // what the text logger emitted, in order
 }
 
+// record is the sink of the text logger.
+func (ls *logset) record(line string) {
+	ls.recMu.Lock()
+	ls.records = append(ls.records, line)
+	ls.recMu.Unlock()
+	atomic.AddInt64(&ls.textCalls, 1)
+}
+
 // lastRecord is the latest record of the text logger.
 func (ls *logset) lastRecord() string {
 	ls.recMu.Lock()
@@ -83,12 +91,7 @@ func newLogset(post, body HarOpt, headersOnly, decode bool) *logset {
 	ls.marbl = marbl.NewModifier(ls.mw)
 	ls.text.SetHeadersOnly(headersOnly)
 	ls.text.SetDecode(decode)
-	ls.text.SetLogFunc(func(line string) {
-		ls.recMu.Lock()
-		ls.records = append(ls.records, line)
-		ls.recMu.Unlock()
-		atomic.AddInt64(&ls.textCalls, 1)
-	})
+	ls.text.SetLogFunc(ls.record)
 	return ls
 }
 
